@@ -83,6 +83,8 @@ def value(ops, exponent=0.0, output=None, max_size=MAX_REF, absolute=False):
     would exceed ``max_size`` elements.
     """
     ops = [(np.asarray(a), tuple(inds)) for a, inds in ops]
+    if not np.isfinite(exponent) or abs(exponent) > 300:
+        raise ValueError("exponent out of range")
     if absolute:
         ops = [(np.abs(a).astype(np.float64), inds) for a, inds in ops]
     else:
